@@ -19,7 +19,7 @@ def run_sessions(run, specs, oracle=None, relevant=0xFF, model_verify=True, jobs
     FM verification and reports disagreements on the `relevant` code bits.  Returns the observations."""
     name = name or run.prop.lower()
     obs = run_harness(["session"], [strip(s) for s in specs], jobs=jobs)
-    terms, meta = [], []
+    terms, meta, unknown_masks = [], [], set()
     for s, o in zip(specs, obs):
         if oracle:
             oracle(run, s, o)
@@ -46,6 +46,8 @@ def run_sessions(run, specs, oracle=None, relevant=0xFF, model_verify=True, jobs
                 for j, tt in enumerate(t):
                     terms.append(tt)
                     meta.append((s, vi, j))
+                    if not info["masks_known"][j]:
+                        unknown_masks.add(len(terms) - 1)
         if extra_terms:
             for (tt, m) in extra_terms(s, o):
                 terms.append(tt)
@@ -57,6 +59,8 @@ def run_sessions(run, specs, oracle=None, relevant=0xFF, model_verify=True, jobs
         m = meta[i]
         s, vi, j = m
         is_prover = isinstance(vi, str)
+        if i in unknown_masks:
+            code &= ~2
         code_rel = (code & prover_relevant) if is_prover else (code & relevant)
         if not code_rel:
             continue
